@@ -414,6 +414,13 @@ def pool_schedule_binding(chk, scheds, unordered, tier):
                     if np.all(np.isfinite(exp)) and len(set(exp.tolist())) == n:
                         break
                 else:
+                    if not np.all(np.isfinite(exp)):
+                        # twenty random stacks, not one with finite indices: the single-snapshot function is broken
+                        # (clause finite); the batched binding has nothing to compare with and is skipped
+                        chk.violation(dict(clause="finite", system=system, texture="random-small"),
+                                      f"misorientation_index({system}) returned non-finite values {exp.tolist()} for 20 random stacks of {n} small snapshots", dict(kind="pool-binding-precondition"))
+                        chk.skip("pool schedule binding skipped: misorientation_index is not finite on small random snapshots")
+                        return
                     raise MachineryError("could not draw a stack with pairwise distinct finite M-indices")
                 stacks[(n, form, system)] = (st, exp)
     variants = [("list", "triclinic"), ("ndarray", "orthorhombic"), ("list", "orthorhombic"), ("ndarray", "triclinic")]
@@ -426,7 +433,7 @@ def pool_schedule_binding(chk, scheds, unordered, tier):
         chk.count(("sched", s["n"], s["w"], tuple(s["ev"])))
         ooo = pool.completion_order != sorted(pool.completion_order)
         n_ooo += ooo
-        if not pool.used:
+        if not pool.used and exc == "None":
             raise MachineryError("misorientation_indices did not use the supplied pool")
         if exc != "None" or not same_bits(got, exp):
             chk.violation(dict(clause="pool-order", pool="schedule-driven-imap"),
@@ -437,7 +444,7 @@ def pool_schedule_binding(chk, scheds, unordered, tier):
                             delivery_order=pool.delivery_order, pool_methods=sorted(set(pool.used)), result_bitwise_equal=bool(exc == "None" and same_bits(got, exp))))
     chk.cov["pool_schedules"] = dict(replayed=len(scheds), with_out_of_order_completion=int(n_ooo))
     if n_ooo == 0:
-        raise MachineryError("no replayed schedule completed tasks out of order")
+        chk.machinery_doubt("no replayed schedule completed tasks out of order")
     # negative control: the imap_unordered environment through the same pool object
     probe = Check(PID, tier, dry=True)
     bad_seen = bad_flagged = good_seen = good_flagged = 0
